@@ -364,6 +364,24 @@ def _task(args):
         return {'i': i, 'seed': seed, 'error': traceback.format_exc(), 'violations': [], 'hash': '', 'mode': mode}
 
 
+def _task_hash(args):
+    """selftest of a sweep module: its scenario (and one armed fault point, if the module can arm one) executed, event logs hashed"""
+    i, seed, tier, mode = args
+    try:
+        plan = _prop.gen(random.Random(seed), tier, i)
+        res = _worker.run(plan)
+        h = res.hash
+        if hasattr(_prop, 'points') and hasattr(_prop, 'with_fault'):
+            pts = _prop.points(plan, res, tier, random.Random(seed ^ 0x5bd1e995))
+            if pts:
+                k = pts[len(pts) // 2]
+                h += '+' + _worker.run(_prop.with_fault(plan, k)).hash
+        return {'i': i, 'seed': seed, 'hash': h}
+    except Exception:
+        import traceback
+        return {'i': i, 'seed': seed, 'error': traceback.format_exc(), 'hash': ''}
+
+
 def run_plan_once(propmod, plan, variant='asan'):
     w = Worker(variant, exe=getattr(propmod, 'EXE', 'nsim'))
     try:
@@ -658,10 +676,11 @@ def selftest(propmod, prop, n, verif_seed=1, variant='asan'):
         if jobs == 5:
             tasks.reverse()
         with ctx.Pool(jobs, initializer=_init, initargs=(propmod.__name__, variant)) as pool:
-            res = {r['i']: r for r in pool.imap_unordered(_task, tasks, chunksize=7)}
+            res = {r['i']: r for r in pool.imap_unordered(_task if hasattr(propmod, 'check') else _task_hash, tasks, chunksize=7)}
         hashes.append(res)
     bad = [i for i in range(n) if hashes[0][i].get('hash') != hashes[1][i].get('hash') or 'error' in hashes[0][i]]
     print('selftest %s: %d seeds x 2 worker counts, %d mismatches%s' % (prop, n, len(bad), (' first=%d' % bad[0]) if bad else ''))
+    if bad and 'error' in hashes[0][bad[0]]: print(hashes[0][bad[0]]['error'])
     return 0 if not bad else 2
 
 
